@@ -91,6 +91,10 @@ func runC01(c *core.Ctx) {
 	sp := gen.StoreSpec{Kind: c.Index % 3}
 	pattern := signPatterns[r.Intn(len(signPatterns))]
 	n := randN(r, 2000)
+	if c.Tier == "thorough" && c.Index%5000 == 11 {
+		n = r.Range(50000, 300000) // soak: large inputs
+		c.Count("soak.inputs", 1)
+	}
 	maxSigma := 2000.0
 	if sp.Kind == gen.SDense {
 		maxSigma = 300
